@@ -655,7 +655,9 @@ pub fn gen_c10(c: &mut Ctx) {
     gen_c08(&mut sub);
     gen_c09(&mut sub);
     gen_c11(&mut sub);
-    let keep_every = if c.thorough { 2 } else { 7 };
+    // every line: sampling the paired lines made the detection of type-specific changes depend on
+    // which lines happened to be kept (seeded changes C10-a, C10-c were caught or missed by luck)
+    let keep_every = 1;
     let mut k = 0usize;
     for l in sub.out {
         let t: Vec<&str> = l.split_whitespace().collect();
